@@ -110,9 +110,30 @@ def possibly_unbound(func):
             if st in bs and isinstance(st, (ast.For, ast.AsyncFor)):
                 # `for x in f(x)` - iter evaluated before binding
                 pass
-            wit = cfg.path_avoiding(cfg.ENTRY, st, lambda n: n in bs)
             if st is cfg.ENTRY:
                 continue
-            if wit is not None:
+            # a path from the entry to the use on which no binding of the
+            # name completes: a binding statement is passed only through
+            # its exception edge (its right-hand side raised, nothing was
+            # bound)
+            seen = {cfg.ENTRY}
+            work = [cfg.ENTRY]
+            found = False
+            while work and not found:
+                a = work.pop()
+                for b in cfg.succ[a]:
+                    if a in bs:
+                        simple = isinstance(a, (ast.Assign, ast.AnnAssign,
+                                                ast.AugAssign))
+                        if not simple or \
+                                cfg.label.get((a, b)) != {'exc'}:
+                            continue
+                    if b is st:
+                        found = True
+                        break
+                    if b not in seen:
+                        seen.add(b)
+                        work.append(b)
+            if found:
                 out.append((name, st, nm))
     return out
